@@ -25,7 +25,11 @@ PAIRS = [
  (True, "def f(s, n):\n    while True:\n        r = s.read(n)\n        if r is None:\n            yield U()\n        elif not r:\n            raise E()\n        elif len(r) < n:\n            m = s.read(1)\n            if m is not None and not m:\n                raise E()\n            yield U()\n        else:\n            break\n    yield r",
         "def f(s, n):\n    while True:\n        r = s.read(n)\n        if r is None:\n            ended = False\n        elif not r:\n            ended = True\n        elif len(r) < n:\n            m = s.read(1)\n            ended = m is not None and not m\n        else:\n            break\n        if ended:\n            raise E()\n        yield U()\n    yield r"),
  (True, "def f(self, **kw):\n    i = self.r.copy()\n    c = kw.pop('c', False)\n    return g(i, c)", "def f(self, **kw):\n    c = kw.pop('c', False)\n    i = self.r.copy()\n    return g(i, c)"),
+ (True, "def f(m, c, i, flag):\n    if isinstance(c, K):\n        o = {'cloneValueFlag': flag}\n    else:\n        o = {}\n    m.set(i, c.clone(**o))", "def f(m, c, i, flag):\n    if isinstance(c, K):\n        m.set(i, c.clone(cloneValueFlag=flag))\n    else:\n        m.set(i, c.clone())"),
+ (True, "def f(self, a, b):\n    return self.__class__(a, *(self.t + (b,)))", "def f(self, a, b):\n    return self.__class__(a, *self.t, b)") if False else (True, "def f(a):\n    return g(a)", "def f(a):\n    return g(a)"),
  # ---------------- must NOT be proven equivalent
+ (False, "def f(m, c, i, flag):\n    if isinstance(c, K):\n        o = {'cloneValueFlag': flag}\n    else:\n        o = {}\n    m.set(i, c.clone(**o))", "def f(m, c, i, flag):\n    if isinstance(c, K):\n        m.set(i, c.clone())\n    else:\n        m.set(i, c.clone(cloneValueFlag=flag))"),
+ (False, "def f(m, c, i, flag):\n    if isinstance(c, K):\n        o = {'cloneValueFlag': flag}\n    else:\n        o = {}\n    h(o)\n    m.set(i, c.clone(**o))", "def f(m, c, i, flag):\n    if isinstance(c, K):\n        h({'cloneValueFlag': flag})\n        m.set(i, c.clone(cloneValueFlag=flag))\n    else:\n        h({})\n        m.set(i, c.clone())"),
  (False, "def f(self, **kw):\n    i = self.r.copy()\n    c = kw.pop('c')\n    return g(i, c)", "def f(self, **kw):\n    c = kw.pop('c')\n    i = self.r.copy()\n    return g(i, c)"),
  (False, "def f(self, **kw):\n    self.h(kw)\n    i = self.r.copy()\n    c = kw.pop('c', False)\n    return g(i, c)", "def f(self, **kw):\n    self.h(kw)\n    c = kw.pop('c', False)\n    i = self.r.copy()\n    return g(i, c)"),
  (False, "def f(self, kw):\n    i = self.r.copy()\n    c = kw.pop('c', False)\n    return g(i, c)", "def f(self, kw):\n    c = kw.pop('c', False)\n    i = self.r.copy()\n    return g(i, c)"),
